@@ -217,8 +217,9 @@ func (e *Engine) loopHeader(fr *Frame, h *ssa.BasicBlock, st *State) *State {
 		gnames = append(gnames, name)
 	}
 	sort.Strings(gnames)
+	gmod, gall := e.ghostsModifiedIn(body, map[*ssa.Function]bool{}, 0)
 	for _, name := range gnames {
-		if ghostWrittenIn(body) {
+		if gall || gmod[name] {
 			ns.ghost[name] = e.vc.declare("GL_"+name, e.ghostSort(name))
 		}
 	}
@@ -438,4 +439,88 @@ func (e *Engine) frameAxiom(srt, q, wm, changed, nh, pre string) string {
 // map, 0 otherwise (range facts for other element types come from loads).
 func leafIsSmallInt(inner string) int {
 	return 0
+}
+
+// ghostsModifiedIn: the ghost variables that calls inside the given blocks may
+// change (from the modifies clauses of contracts; inlined callees are scanned).
+// all=true when some callee is opaque.
+func (e *Engine) ghostsModifiedIn(body map[*ssa.BasicBlock]bool, seen map[*ssa.Function]bool, depth int) (map[string]bool, bool) {
+	out := map[string]bool{}
+	for b := range body {
+		for _, in := range b.Instrs {
+			ci, ok := in.(ssa.CallInstruction)
+			if !ok {
+				continue
+			}
+			cc := ci.Common()
+			var c *Contract
+			var callee *ssa.Function
+			if cc.IsInvoke() {
+				if n, ok := types.Unalias(cc.Value.Type()).(*types.Named); ok && n.Obj().Pkg() != nil {
+					c = e.db.Funcs[n.Obj().Pkg().Path()+"."+n.Obj().Name()+"."+cc.Method.Name()]
+				}
+				if c == nil {
+					continue // closed-world dispatch or intrinsic: scanned below only if static
+				}
+			} else {
+				callee = cc.StaticCallee()
+				if callee == nil {
+					if _, isB := cc.Value.(*ssa.Builtin); isB {
+						continue
+					}
+					return nil, true
+				}
+				key := funcKey(callee)
+				if key == "time.Now" || key == "time.Since" || key == "time.Until" {
+					out["now"] = true
+					continue
+				}
+				if _, ok := intrinsics[key]; ok {
+					continue
+				}
+				skip := false
+				for pfx := range intrinsicPrefixes {
+					if strings.HasPrefix(key, pfx) {
+						skip = true
+					}
+				}
+				if skip {
+					continue
+				}
+				c = e.db.Funcs[key]
+				if c != nil && c.Inline {
+					c = nil
+				}
+			}
+			if c != nil {
+				for _, m := range c.Modifies {
+					if call, ok := m.Expr.(*astCallExpr); ok {
+						if id, ok := call.Fun.(*astIdent); ok && id.Name == "ghost" {
+							out[call.Args[0].(*astIdent).Name] = true
+						}
+					}
+				}
+				continue
+			}
+			if callee == nil || len(callee.Blocks) == 0 || depth > 6 {
+				return nil, true
+			}
+			if seen[callee] {
+				continue
+			}
+			seen[callee] = true
+			cb := map[*ssa.BasicBlock]bool{}
+			for _, bb := range callee.Blocks {
+				cb[bb] = true
+			}
+			sub, all := e.ghostsModifiedIn(cb, seen, depth+1)
+			if all {
+				return nil, true
+			}
+			for k := range sub {
+				out[k] = true
+			}
+		}
+	}
+	return out, false
 }
